@@ -4,6 +4,6 @@ Extraction Language OCaml.
 Extraction "model.ml" mk_achunk is_superrun first_subrun last_subrun promised_continuity
   set_subruns set_superrun split_runs asplit aconcatenate amerge acontinuity_check
   merge_subruns merge_superrun
-  define_run_order sub_run_spec chained_spec canon_spec
+  define_run_order sub_run_spec chained_spec canon_spec h_trace
   load_chunk save_chunk do_compute plugin_iter save_stream
   superrun_get superrun_reload combining_get superrun_full combining_full subrun_make.
